@@ -71,6 +71,7 @@ void verif_swap(var a, var b) { struct Elem t = *(struct Elem*)a; *(struct Elem*
 #define OP_REM_ABSENT 16
 #define OP_INIT 17
 #define OP_MARK 18
+#define OP_SHOW 19
 
 static int64_t R[LMAX]; static size_t rn;        /* reference sequence */
 static struct Elem* item(struct Array* a, size_t i) { return Array_Item(a, i); }
@@ -126,6 +127,20 @@ static struct Array* arbitrary_array(uint64_t n, uint64_t slots, const int64_t* 
   return a;
 }
 
+/* Show instance (C14: "for a container: its elements' own show text, each once, in iteration order"): print_to_with is
+ * a recorder here (replace-calls).  Every call advances the position by one, so the value returned at the end also
+ * shows that each call was given the position its predecessor returned. */
+#define SHOW_MAX 24
+static int show_n = 0; static int show_kind[SHOW_MAX]; static var show_a0[SHOW_MAX], show_a1[SHOW_MAX]; static int show_pos_ok = 1, show_next_pos = 0; static var show_out = NULL;
+int v_print_rec(var out, int pos, const char* fmt, var args) {
+  if (out != show_out || pos != show_next_pos) show_pos_ok = 0;
+  int kind = 0;                                   /* 0 literal, 1 element ("%$" present), 2 separator ", " */
+  for (int i = 0; i < 12 && fmt[i]; i++) if (fmt[i] == '%' && fmt[i + 1] == '$') kind = 1;
+  if (fmt[0] == ',' && fmt[1] == ' ' && fmt[2] == 0) kind = 2;
+  if (show_n < SHOW_MAX) { show_kind[show_n] = kind; struct Tuple* tp = args; show_a0[show_n] = tp->items[0]; show_a1[show_n] = (tp->items[0] != Terminal) ? tp->items[1] : Terminal; }
+  show_n++; show_next_pos = pos + 1;
+  return pos + 1;
+}
 static var mark_seen[LMAX]; static int mark_n = 0; static var mark_gc;
 static void mark_rec(var gc, void* p) { V_ASSERT(gc == mark_gc, "the collector handle is passed through"); if (mark_n < LMAX) mark_seen[mark_n] = p; mark_n++; }
 static var expect_throw = NULL; static struct Array* snap_a; static struct Array snap_struct; static uint64_t snap_words[LMAX * 5]; static int snap_live;
@@ -273,6 +288,17 @@ V_HARNESS {
     V_ASSERT(valid(a) && agrees(a), "assign: target holds the source's sequence");
     V_ASSERT(b->nitems == om && owns(a, b) && elem_ledger_ok, "assign: old elements finalised once, copies are new, source untouched (deep copy, C05)");
     V_ASSERT(a->nitems == 0 || a->data != b->data, "assign: storage is not shared"); }
+#elif OP == OP_SHOW
+  { static uint64_t outobj[2]; show_out = &outobj[1]; show_next_pos = 7;
+    int end = Array_Show(a, show_out, 7);
+    V_WITNESS("shown");
+    _Bool ok = show_pos_ok && show_n == (int)(n == 0 ? 2 : 2 * n + 1) && end == 7 + show_n && show_kind[0] == 0 && show_kind[show_n - 1] == 0;
+    for (size_t i = 0; i < L; i++) if (i < n) {
+      int at = 1 + 2 * (int)i;
+      if (at >= SHOW_MAX || show_kind[at] != 1 || show_a0[at] != (var)item(a, i)) ok = 0;
+      if (i + 1 < n && (at + 1 >= SHOW_MAX || show_kind[at + 1] != 2)) ok = 0;
+    }
+    V_ASSERT(ok, "show: every element exactly once, in order, separators strictly between elements, positions threaded"); }
 #elif OP == OP_MARK
   { static uint64_t gcobj[2]; mark_gc = &gcobj[1];
     Array_Mark(a, mark_gc, mark_rec);
